@@ -29,7 +29,11 @@ LOCKFORM = ["_, _lock = o.x", "_, _lock  = o.x", "_, _lock = o.x\nwith _lock:\n 
             "_, _lock = o.x\nwith _lock:\n  v {a} o.x"]
 COMMENTS = ["v = o.x  # total {a} 1", "v = o.x  # a {c} b", "o.x = {k}  # was: o.x {a} 1", "v = o.x # _, _lock = o.x"]
 
-FAMILIES = {"read": READS, "compare": COMPARES, "assign": ASSIGNS, "aug_self": AUG_SELF,
+# the attribute holds a container: statements on its items never assign to the attribute itself
+ITEMS = ["o.x[0] {a} {k}", "o.x[0] = {k}", "v = o.x[0]", "o.x[-1] {a} v", "o.x[0], v = v, {k}",
+         "v = o.x[0] {c} {k}", "o.x.append({k})", "v {a} o.x[0]", "o.x [0] {a} {k}"]
+
+FAMILIES = {"item": ITEMS, "read": READS, "compare": COMPARES, "assign": ASSIGNS, "aug_self": AUG_SELF,
             "aug_other": AUG_OTHER, "lockform": LOCKFORM, "comment": COMMENTS}
 
 
@@ -84,13 +88,14 @@ class C28(Prop):
           "assignments (including o.x = o.x + k), augmented assignments to the attribute with every "
           "integer operator (+= -= *= //= %= **= <<= >>= &= |= ^=), augmented assignments to ANOTHER "
           "variable/subscript/attribute whose right side reads o.x, the documented '_, _lock = o.x' "
-          "form alone and followed by a 'with _lock:' block that uses the attribute, and trailing comments that mention operators. The "
+          "form alone and followed by a 'with _lock:' block that uses the attribute, trailing comments that mention operators, and statements on the ITEMS "
+          "of an attribute that holds a list (o.x[0] += k, o.x[0] = k, o.x.append(k), ...). The "
           "statement is written to a real source file (miros inspects the caller's source line), "
           "compiled and executed once by the calling thread. Oracle: afterwards the attribute's lock "
           "(threading.RLock substituted in miros.thread_safe_attributes by a depth-counting "
           "wrapper) is held zero times, and a second real thread can acquire it without blocking. "
           "Non-trivial: the statement contains a comparison or an augmented assignment that does "
-          "not target the attribute; distinct = distinct statement texts.")
+          "not target the attribute itself; distinct = distinct statement texts.")
   assumptions = [
     "lock ownership is observed through a counting wrapper substituted for threading.RLock in "
     "miros.thread_safe_attributes before the class is created",
@@ -130,7 +135,7 @@ class C28(Prop):
     import miros.thread_safe_attributes as tsa
     import miros
     stmt = case["stmt"]
-    nontrivial = case["family"] in ("compare", "aug_other", "comment")
+    nontrivial = case["family"] in ("compare", "aug_other", "comment", "item")
     stats.case({"stmt": stmt}, nontrivial, ["family_" + case["family"]])
     saved = tsa.RLock
     tsa.RLock = CountingRLock
@@ -143,7 +148,7 @@ class C28(Prop):
         raise PropertyViolation("expected one lock for one attribute, found %d" % len(locks), "C28:harness")
       lock = locks[0]
       o = klass()
-      o.x = case["initial"]
+      o.x = [case["initial"], 1, 2] if case["family"] == "item" else case["initial"]
       path = os.path.join(d, "vf_stmt_case.py")
       body = "\n".join("  " + l for l in stmt.split("\n"))
       src = "def run(o, v, w, h):\n%s\n  return None\n" % body
